@@ -5,7 +5,7 @@ Query AST (Python dicts):
   query  = {"with": [(name, query)], "body": setexpr, "orderby": [(expr, dir|None)], "limit": int|None, "offset": int|None}
   setexpr = ("select", select) | ("chain", operand, [(op, operand), ...])
   operand = ("select", select) | ("paren", query)          # parenthesised operand, may carry its own ORDER BY / LIMIT
-  select = {"distinct": bool, "top": int|None, "items": [item], "from": [source], "joins": [(kind, source, cond)],
+  select = {"distinct": bool, "top": (count, percent, with_ties)|None, "items": [item], "from": [source], "joins": [(kind, source, cond)],
             "where": expr|None, "groupby": [expr], "having": expr|None}
   item   = ("star",) | ("tstar", table) | ("expr", expr, alias|None)
   source = ("table", name, alias|None) | ("sub", query, alias)
@@ -91,8 +91,9 @@ class QueryGen:
         top = None
         distinct = r.random() < 0.15
         if not distinct and r.random() < 0.08:
-            top = r.choice([1, 5, 10])
-        if distinct or top:
+            # the count 0 is falsy in Python, PERCENT / WITH TIES change the shape of the entry
+            top = (r.choice([0, 0, 1, 5, 10]), r.random() < 0.35, r.random() < 0.35)
+        if distinct or top is not None:
             items = [it for it in items if it[0] == "expr"] or [("expr", self.expr(0), None)]
         return {"distinct": distinct, "top": top, "items": items, "from": frm, "joins": joins, "where": where,
                 "groupby": groupby, "having": having}
@@ -162,8 +163,9 @@ def r_select(s):
     parts = ["SELECT"]
     if s["distinct"]:
         parts.append("DISTINCT")
-    if s["top"]:
-        parts.append("TOP %d" % s["top"])
+    if s["top"] is not None:
+        n, percent, ties = s["top"]
+        parts.append("TOP %d" % n + (" PERCENT" if percent else "") + (" WITH TIES" if ties else ""))
     items = []
     for it in s["items"]:
         if it[0] == "star":
@@ -243,8 +245,14 @@ def s_select(s):
                 d["name"] = it[2]
             items.append(d)
     out["select_distinct" if s["distinct"] else "select"] = one(items)
-    if s["top"]:
-        out["top"] = s["top"]
+    if s["top"] is not None:
+        n, percent, ties = s["top"]
+        if ties:
+            out["top"] = {"ties": True, ("percent" if percent else "value"): n}
+        elif percent:
+            out["top"] = {"percent": n}
+        else:
+            out["top"] = n
     if s["from"]:
         frm = [s_source(x) for x in s["from"]]
         for kind, src, cond in s["joins"]:
